@@ -282,9 +282,11 @@ def t_find_islands(ctx, with_region):
         rel = lambda t: (t[0] - Sym(X0(ie)), t[1] - Sym(Y0(ie)))
         at = edge_pts + [rel(t) for t in edge_pts] + [(rel(t)[1], rel(t)[0]) for t in edge_pts] + \
             [(t[0] - Sym(X0(ie)),) for t in edge_pts] + [(t[1] - Sym(Y0(ie)),) for t in edge_pts]
-        # one obligation per side of the box (same name: they are grouped), so that each query stays small
-        for goal in (bb.at((0, 0)) == Sym(X0(ie)), bb.at((0, 1)) == Sym(X1(ie)), bb.at((1, 0)) == Sym(Y0(ie)), bb.at((1, 1)) == Sym(Y1(ie))):
-            c.oblige("post", lab + ".bounding_box_is_the_tight_box_of_own_pixels", goal, at=at, timeout_ms=60000, focus=3)
+        goals = (bb.at((0, 0)) == Sym(X0(ie)), bb.at((0, 1)) == Sym(X1(ie)), bb.at((1, 0)) == Sym(Y0(ie)), bb.at((1, 1)) == Sym(Y1(ie)))
+        for e_, goal in enumerate(goals):
+            t = edge_pts[e_]         # the witness pixel on that side of the box
+            at_e = [t, rel(t), (rel(t)[1], rel(t)[0]), (t[0] - Sym(X0(ie)),), (t[1] - Sym(Y0(ie)),)]
+            c.oblige("post", lab + ".bounding_box_is_the_tight_box_of_own_pixels", goal, at=at_e, timeout_ms=120000)
         c.oblige("post", lab + ".mask_has_the_shape_of_the_box",
                  And(mask.shape_[0] == Sym(X1(ie) - X0(ie)), mask.shape_[1] == Sym(Y1(ie) - Y0(ie))))
         p = (c.fresh_int("pr"), c.fresh_int("pc"))
